@@ -9,6 +9,7 @@ import (
 	"os"
 	"os/exec"
 	"strings"
+	"syscall"
 	"time"
 )
 
@@ -63,6 +64,8 @@ func New(kind string, timeoutMs int) (*Solver, error) {
 	default:
 		return nil, fmt.Errorf("unknown solver %q", kind)
 	}
+	// the solver must not outlive the engine (an engine that is killed would leave busy solver processes behind)
+	cmd.SysProcAttr = &syscall.SysProcAttr{Pdeathsig: syscall.SIGKILL}
 	in, err := cmd.StdinPipe()
 	if err != nil {
 		return nil, err
